@@ -1217,6 +1217,13 @@ class Exec:
                         return mk("call", "libm::fabs", x[2])
         if base in ("core::f64::<impl f64>::abs",) and len(args) == 1:
             return mk("call", "libm::fabs", self.deref_value(st, args[0]))
+        # the exactly specified IEEE operations have one result whoever computes them: std's inherent methods and libm's
+        # functions are the same function (sqrt is correctly rounded in both; the roundings to an integer are exact)
+        STD_EXACT = {"sqrt": "libm::sqrt", "floor": "libm::floor", "ceil": "libm::ceil", "trunc": "libm::trunc", "round": "libm::round",
+                     "copysign": "libm::copysign"}
+        m_std = re.match(r"^(?:core|std)::f64::<impl f64>::(\w+)$", base)
+        if m_std and m_std.group(1) in STD_EXACT and len(args) in (1, 2):
+            return mk("call", STD_EXACT[m_std.group(1)], *[self.deref_value(st, a) for a in args])
         m = re.match(r"^core::convert::num::<impl core::convert::From<(\w+)> for (\w+)>::from$", base)
         if m and len(args) == 1:
             # the numeric From impls of core are the lossless `as` conversions
